@@ -478,7 +478,18 @@ def check_deloop(facts, rep):
                       where='yui-khovanov/src/kh/internal/v2/builder.rs')
 
 
+def selftest(rep):
+    """the algebra used as the oracle really is Z[h,t][X]/(X^2-hX-t) with Y = X - h"""
+    ok = (amul(AX, AX) == aadd(ascale(H, AX), (T_, {})) and amul(AX, AY) == (T_, {}) and
+          amul(AY, AY) == aadd(ascale(pneg(H), AY), (T_, {})) and eps(AX) == ONE and eps(AY) == ONE and eps(A1) == {} and
+          eps(V(2, 1, 1)) == {} and V(1, 0, 0) == aadd(AX, AY) and amul(AX, AX) != aadd(ascale(T_, AX), (H, {})))
+    rep.controls.append({'engine': 'E9.algebra', 'bad_flagged': ok, 'detail': 'X^2=hX+t, XY=t, Y^2=-hY+t, eps; wrong identity rejected'})
+    if not ok:
+        rep.indet('E9 self-test: the reference algebra is wrong')
+
+
 def run(facts, rep, parts=('R1', 'R4', 'R6')):
+    selftest(rep)
     dt = None
     if 'R1' in parts or 'R4' in parts:
         dt = check_part_eval(facts, rep)
